@@ -14,7 +14,7 @@ def polymod_c(values: ListOf(Int)) -> Int:
     option(callable=True, auto_unfold=False)
     invariant(0, chk == polymod(values[:_k]))
     hint(0, 'entry', unfold(polymod(values[:0])))
-    hint(0, 'head', unfold(polymod(values[:_k + 1])))
+    hint(0, 'body', unfold(polymod(values[:_k + 1])))
     ensures(result == polymod(values))
 
 
@@ -44,8 +44,29 @@ def verify_checksum_c(hrp: Str, data: ListOf(Int)) -> Bool:
 def create_checksum_c(hrp: Str, data: ListOf(Int)) -> ListOf(Int):
     """six 5-bit values: the polymod of prefix, data and six zeros, xor 1, most significant group first"""
     option(callable=True, auto_unfold=False)
-    ensures(len(result) == 6 and forall(range(0, 6), lambda i: result[i] == (
-        (polymod(list_of(hrp_expand(hrp)) + data + [0, 0, 0, 0, 0, 0]) ^ 1) >> 5 * (5 - i)) & 31))
+    unfold(checksum_of(hrp, data))
+    hint('post', 'post', unfold(in5(result)))
+    ensures(in5(result) and len(result) == 6)
+    ensures(result == list_of(checksum_of(hrp, data)))
+
+
+@lemma(prop=P)
+def in5_at(a: TupleOf(Int), b: TupleOf(Int), k: Int):
+    """an element of a concatenation of two 5-bit value sequences is a 5-bit value"""
+    requires(in5(a) and in5(b) and 0 <= k and k < len(a) + len(b))
+    unfold(in5(a))
+    unfold(in5(b))
+    cases(k < len(a), k >= len(a))
+    ensures(0 <= (a + b)[k] and (a + b)[k] < 32)
+
+
+@lemma(prop=P)
+def in5_cons(v: Int, b: TupleOf(Int)):
+    """a 5-bit value in front of a 5-bit value sequence"""
+    requires(0 <= v and v < 32 and in5(b))
+    unfold(in5(b))
+    unfold(in5((v,) + b))
+    ensures(in5((v,) + b))
 
 
 @contract('bitcoin.segwit_addr:bech32_encode', prop=P)
@@ -55,6 +76,266 @@ def bech32_encode_c(hrp: Str, data: ListOf(Int)) -> Str:
     option(callable=True, auto_unfold=False)
     loopvar('c0', '_acc', ListOf(Str))
     hint('c0', 'entry', unfold(chars_of(combined[:0])))
-    hint('c0', 'head', unfold(chars_of(combined[:_k + 1])))
+    hint('c0', 'body', unfold(chars_of(combined[:_k + 1])))
+    hint('c0', 'body', use(in5_at(data, checksum_of(hrp, data), _k)))
     invariant('c0', sjoin(_acc) == chars_of(combined[:_k]))
-    ensures(result == hrp + '1' + chars_of(data + sa.bech32_create_checksum(hrp, data)))
+    ensures(result == hrp + '1' + chars_of(data + list_of(checksum_of(hrp, data))))
+
+
+@lemma(prop=P)
+def in5_prefix(vs: TupleOf(Int), n: Int):
+    requires(in5(vs) and 0 <= n and n <= len(vs))
+    unfold(in5(vs))
+    unfold(in5(vs[:n]))
+    ensures(in5(vs[:n]))
+
+
+@lemma(prop=P)
+def in5_tail(vs: TupleOf(Int)):
+    requires(in5(vs))
+    unfold(in5(vs))
+    unfold(in5(vs[1:]))
+    ensures(in5(vs[1:]) and (len(vs) == 0 or (0 <= vs[0] and vs[0] < 32)))
+
+
+@contract('bitcoin.segwit_addr:bech32_decode', prop=P)
+def bech32_decode_c(bech: Str) -> (Optional(Str), Optional(ListOf(Int))):
+    """accepts exactly the BIP173-valid strings and returns the lower-cased prefix and the data values without
+    the six checksum values; every other string gives (None, None) - no exception"""
+    option(callable=True, auto_unfold=False, also=['bech32_decode_first'])
+    hint('post', 'post', unfold(bech32_ok(bech)))
+    hint('post', 'post', unfold(bech_hrp(bech)))
+    hint('post', 'post', unfold(bech_data(bech)))
+    loopvar('c2', '_acc', ListOf(Int))
+    hint('c2', 'entry', unfold(vals_of(bech[pos + 1:][:0])))
+    hint('c2', 'body', unfold(vals_of(bech[pos + 1:][:_k + 1])))
+    invariant('c2', _acc == list_of(vals_of(bech[pos + 1:][:_k])))
+    ensures((result[0] is None) == (result[1] is None))
+    ensures(implies(result[0] is not None, forall(range(0, len(bech)), lambda j: 33 <= ord(bech[j]) and ord(bech[j]) <= 126)))
+    ensures(implies(result[0] is not None, (bech.lower() == bech or bech.upper() == bech)))
+    ensures(implies(result[0] is not None, sep(bech) >= 1 and sep(bech) + 7 <= len(bech) and len(bech) <= 90))
+    ensures(implies(result[0] is not None, forall(range(0, len(data_part(bech))), lambda j: data_part(bech)[j] in CHARSET)))
+    ensures(implies(result[0] is not None, polymod(hrp_expand(bech.lower()[:sep(bech)]) + vals_of(data_part(bech))) == 1))
+    ensures(implies(result[0] is None, not bech32_ok(bech)))
+    ensures(implies(result[0] is not None, bech32_ok(bech)))
+    ensures(implies(result[0] is not None, result[0] == bech_hrp(bech) and result[1] == list_of(bech_data(bech))))
+
+
+
+@contract('bitcoin.segwit_addr:bech32_decode', name='bech32_decode_first', prop=P)
+def bech32_decode_first(bech: Str) -> (Optional(Str), Optional(ListOf(Int))):
+    """the first returned data value (the witness version of an address) is a 5-bit value"""
+    option(auto_unfold=False)
+    loopvar('c2', '_acc', ListOf(Int))
+    invariant('c2', len(_acc) == _k and implies(_k >= 1, 0 <= _acc[0] and _acc[0] < 32))
+    ensures(implies(result[1] is not None and len(result[1]) >= 1, 0 <= result[1][0] and result[1][0] < 32))
+
+
+@contract('bitcoin.segwit_addr:convertbits', name='convertbits_5to8', prop=P)
+def convertbits_5to8(data: ListOf(Int), frombits: Const(5), tobits: Const(8), pad: Const(False)) -> Optional(ListOf(Int)):
+    """BOUNDED + ASSUMED at call sites: strict regrouping of 5-bit groups into bytes (reference: explicit bit string)"""
+    option(bounded=3000, callable=True, assumed=True)
+    ensures((result is None) == (not (in5(data) and conv58_ok(data))))
+    ensures(implies(result is not None, result == list_of(conv58(data)) and len(result) == (5 * len(data)) // 8))
+
+
+@contract('bitcoin.segwit_addr:convertbits', name='convertbits_8to5', prop=P)
+def convertbits_8to5(data: Bytes, frombits: Const(8), tobits: Const(5), pad: Const(True)) -> ListOf(Int):
+    """BOUNDED + ASSUMED at call sites: bytes regrouped into zero-padded 5-bit groups"""
+    option(bounded=3000, callable=True, assumed=True)
+    ensures(result == list_of(conv85(data)) and in5(result))
+
+
+@contract('bitcoin.segwit_addr:decode', prop=P)
+def segwit_decode_c(hrp: Str, addr: Str) -> (Optional(Int), Optional(ListOf(Int))):
+    """accepts exactly the BIP173-valid segwit addresses of the expected prefix: program length 2..40, version
+    at most 16, version-0 programs of 20 or 32 bytes; returns version and program; never raises"""
+    option(callable=True, auto_unfold=False)
+    ensures((result[0] is None) == (result[1] is None))
+    ensures((result[0] is not None) == segwit_ok(hrp, addr))
+    ensures(implies(result[0] is not None, result[0] == bech_data(addr)[0]
+                    and result[1] == list_of(conv58(bech_data(addr)[1:]))))
+
+
+@contract('bitcoin.segwit_addr:encode', prop=P)
+def segwit_encode_c(hrp: Str, witver: Int, witprog: Bytes) -> Optional(Str):
+    """the result is the Bech32 text of version and regrouped program with its checksum, and it is only
+    returned when the decoder accepts it for this prefix (otherwise None)"""
+    requires(0 <= witver and witver < 32)
+    option(callable=True, auto_unfold=False)
+    hint('call', 'bech32_encode_c', use(in5_cons(witver, conv85(witprog))))
+    ensures(implies(result is not None, segwit_ok(hrp, result) and result == hrp + '1' + chars_of(
+        (witver,) + conv85(witprog) + checksum_of(hrp, (witver,) + conv85(witprog)))))
+
+
+from bitcoin.bech32 import CBech32Data, Bech32Error
+from specs.addr import chain_hrp
+
+
+@contract('bitcoin.bech32:CBech32Data.__new__', name='bech32data_new', prop=P)
+def bech32data_new(cls: Const(CBech32Data), s: Str):
+    """text -> object under the selected chain's prefix: Bech32Error exactly for strings that are not
+    BIP173-valid addresses of that prefix; otherwise the program bytes with the witness version"""
+    option(chains=True, auto_unfold=False)
+    raises(Bech32Error, when=not segwit_ok(chain_hrp(CHAIN), s))
+    ensures(result == bytes(conv58(bech_data(s)[1:])) and result.witver == bech_data(s)[0])
+
+
+@contract('bitcoin.bech32:CBech32Data.__str__', name='bech32data_str', prop=P)
+def bech32data_str(self: Bytes(cls=CBech32Data, attrs={'witver': Int})):
+    """object -> text: the encoder's result for the selected chain's prefix"""
+    requires(0 <= self.witver and self.witver <= 16)
+    option(chains=True, auto_unfold=False)
+    ensures(implies(result is not None, segwit_ok(chain_hrp(CHAIN), result)))
+
+
+# ---- bounded units (never counted as proved) ---------------------------------------------------------
+@contract('bitcoin.segwit_addr:bech32_polymod', name='polymod_is_bch', prop=P)
+def polymod_is_bch(values: ListOf(Int)) -> Int:
+    """BOUNDED: the checksum function equals the remainder modulo the BIP173 generator polynomial computed with
+    GF(32) polynomial arithmetic (independent of the bit-mask generator constants)"""
+    option(bounded=1500)
+    requires(in5(values))
+    ensures(result == ref_bch(values))
+
+
+@contract('bitcoin.segwit_addr:decode', name='segwit_decode_bip173', prop=P)
+def segwit_decode_bip173(hrp: Str, addr: Str) -> (Optional(Int), Optional(ListOf(Int))):
+    """BOUNDED: decoding agrees with an independent BIP173 decoder on valid addresses, on every single
+    substitution of sampled addresses, on random 2-4 substitutions, case patterns, truncations, extensions"""
+    option(bounded=6000)
+    ensures((result[0] is None) == (ref_bech32_decode(hrp, addr) is None) and (result[1] is None) == (result[0] is None))
+    ensures(result[0] is None or (result[0], bytes(result[1])) == ref_bech32_decode(hrp, addr))
+
+
+@contract('bitcoin.segwit_addr:decode', name='corruption_refused', prop=P)
+def corruption_refused(hrp: Str, addr: Str, *, orig: Str) -> (Optional(Int), Optional(ListOf(Int))):
+    """BOUNDED: an address with one to four substituted characters, or in mixed case, is refused"""
+    option(bounded=6000)
+    requires(ref_bech32_decode(hrp, orig) is not None and corrupted(addr, orig))
+    ensures(result[0] is None and result[1] is None)
+
+
+@contract('bitcoin.segwit_addr:encode', name='segwit_encode_bip173', prop=P)
+def segwit_encode_bip173(hrp: Str, witver: Int, witprog: Bytes) -> Optional(Str):
+    """BOUNDED: a version-0 program of 20 or 32 bytes (and versions 1..16 with 2..40 bytes) is encoded to the
+    lower-case BIP173 address, which decodes back to version and program"""
+    option(bounded=1500)
+    requires(0 <= witver and witver <= 16 and 2 <= len(witprog) and len(witprog) <= 40
+             and (witver != 0 or len(witprog) == 20 or len(witprog) == 32))
+    ensures(result == ref_bech32_encode(hrp, witver, witprog) and result == result.lower()
+            and ref_bech32_decode(hrp, result) == (witver, bytes(witprog)))
+
+
+import itertools as _it
+from pyvc import replay as _replay
+
+_B32 = "qpzry9x8gf2tvdw0s3jn54khce6mua7l"
+
+
+def _rnd(rng, n):
+    return bytes(rng.getrandbits(8) for _ in range(n))
+
+
+def _hrp(rng):
+    r = rng.random()
+    if r < 0.75:
+        return rng.choice(['bc', 'tb', 'bcrt'])
+    return ''.join(chr(rng.randint(33, 126)) for _ in range(rng.randint(1, 10))).lower().replace('1', 'x') or 'a'
+
+
+def _valid(rng, hrp=None):
+    hrp = hrp or _hrp(rng)
+    if rng.random() < 0.6:
+        return hrp, ref_bech32_encode(hrp, 0, _rnd(rng, rng.choice([20, 32])))
+    return hrp, ref_bech32_encode(hrp, rng.randint(1, 16), _rnd(rng, rng.randint(2, 40)))
+
+
+_single_state = {}
+
+
+def _single_subst(rng):
+    """exhaustive enumeration of every single substitution of a sampled address (continues across calls)"""
+    st = _single_state.get('it')
+    if st is None:
+        def walk():
+            while True:
+                hrp, a = _valid(rng, rng.choice(['bc', 'tb', 'bcrt']))
+                for i in range(len(a)):
+                    for c in _B32 + '1b':
+                        if c != a[i]:
+                            yield hrp, a, a[:i] + c + a[i + 1:]
+        st = _single_state['it'] = walk()
+    return next(st)
+
+
+def _gen_decode(rng):
+    r = rng.random()
+    if r < 0.15:
+        hrp, a = _valid(rng)
+    elif r < 0.55:
+        hrp, _, a = _single_subst(rng)
+    elif r < 0.75:
+        hrp, a = _valid(rng)
+        for _ in range(rng.choice([2, 2, 3, 4])):
+            i = rng.randrange(len(a))
+            a = a[:i] + rng.choice(_B32) + a[i + 1:]
+    elif r < 0.85:
+        hrp, a = _valid(rng)
+        a = rng.choice([a.upper(), a[:len(hrp)].upper() + a[len(hrp):], a[:len(hrp) + 1] + a[len(hrp) + 1:].upper(),
+                        a[:-1] + a[-1].upper(), ''.join(c.upper() if rng.random() < 0.5 else c for c in a)])
+    elif r < 0.93:
+        hrp, a = _valid(rng)
+        k = rng.randint(1, 8)
+        a = rng.choice([a[:-k], a[k:], a + _B32[:k], a[:len(hrp) + 1] + 'q' * k + a[len(hrp) + 1:], a + ' ', ' ' + a])
+    else:
+        hrp = _hrp(rng)
+        # structurally valid strings with every program length / version, with a correct checksum
+        ver = rng.choice([0, 1, 16, 17, 31])
+        a = ref_bech32_encode(hrp, ver, _rnd(rng, rng.choice([0, 1, 2, 19, 20, 21, 32, 33, 40, 41, 50])))
+    return {'hrp': hrp, 'addr': a}
+
+
+def _gen_corrupt(rng):
+    r = rng.random()
+    if r < 0.6:
+        hrp, orig, a = _single_subst(rng)
+        if a != a.lower():
+            a = a.lower()
+            if a == orig:
+                a = orig[:-1] + ('q' if orig[-1] != 'q' else 'p')
+    elif r < 0.85:
+        hrp, orig = _valid(rng)
+        a = orig
+        for i in rng.sample(range(len(orig)), rng.choice([2, 3, 4])):
+            a = a[:i] + rng.choice([c for c in _B32 if c != orig[i]]) + a[i + 1:]
+    else:
+        hrp, orig = _valid(rng)
+        a = ''.join(c.upper() if rng.random() < 0.5 else c for c in orig)
+        if a == orig or a == orig.upper():
+            a = orig[:-1] + orig[-1].upper() if orig[-1].isalpha() else orig[:1].upper() + orig[1:]
+    return {'hrp': hrp, 'addr': a, 'orig': orig}
+
+
+def _gen_conv58(rng):
+    n = rng.choice([0, 1, 2, 3, 4, 7, 8, 9, 16, 32, 52, 64])
+    vals = [rng.randrange(32) for _ in range(n)]
+    r = rng.random()
+    if r < 0.1 and vals:
+        vals[rng.randrange(n)] = rng.choice([-1, 32, 33, 255, 1 << 20])
+    elif r < 0.5 and vals:
+        vals[-1] &= rng.choice([0, 16, 24, 28, 30])         # zero padding bits of various widths
+    return {'data': {'__list__': vals}, 'frombits': 5, 'tobits': 8, 'pad': False}
+
+
+_replay.GENERATORS.update({
+    'polymod_is_bch': lambda rng: {'values': {'__list__': [rng.randrange(32) for _ in range(rng.choice([0, 1, 5, 6, 7, 20, 45, 90]))]}},
+    'segwit_decode_bip173': _gen_decode, 'segwit_decode_c': _gen_decode,
+    'corruption_refused': _gen_corrupt,
+    'segwit_encode_bip173': lambda rng: (lambda v: {'hrp': _hrp(rng), 'witver': v,
+                                                    'witprog': {'__bytes__': list(_rnd(rng, rng.choice([20, 32]) if v == 0 else rng.randint(2, 40))),
+                                                                'cls': 'builtins:bytes'}})(rng.choice([0, 0, 1, 16, rng.randint(0, 16)])),
+    'convertbits_5to8': _gen_conv58,
+    'convertbits_8to5': lambda rng: {'data': {'__bytes__': list(_rnd(rng, rng.choice([0, 1, 2, 3, 4, 5, 20, 32, 40]))), 'cls': 'builtins:bytes'},
+                                     'frombits': 8, 'tobits': 5, 'pad': True},
+})
